@@ -225,8 +225,14 @@ DATA_KINDS = ["single", "list", "tuple", "dict", "generator", "list_with_str", "
 def data_cases(draw):
     return {"noff": draw(st.integers(0, 3)), "k": draw(st.integers(1, 4)), "kind": draw(st.sampled_from(DATA_KINDS)),
             "entry": draw(st.sampled_from(["marginal_ln_likelihood", "rejection_sample", "iterative_rejection_sample"])),
-            "seed": draw(st.integers(0, 1000))}
+            "seed": draw(st.integers(0, 1000)),
+            # labels of dict sources: plain, one label a prefix of the next, numeric strings, mixed case
+            "keys": draw(st.sampled_from(["plain", "prefix", "prefix_rev", "numeric", "case"]))}
 
+
+KEYSETS = {"plain": ["s0", "s1", "s2", "s3"], "prefix": ["harps", "harps-n", "harps-n2", "harps-n2b"],
+           "prefix_rev": ["harps-n2b", "harps-n2", "harps-n", "harps"], "numeric": ["1", "10", "100", "1000"],
+           "case": ["keck", "Keck", "KECK", "keck "]}
 
 _PRIORS = {}
 
@@ -251,7 +257,7 @@ def data_body_factory(ctx):
         elif kind == "tuple":
             arg, valid = tuple(ds), k - 1 == noff
         elif kind == "dict":
-            arg, valid = {"s%d" % i: d for i, d in enumerate(ds)}, k - 1 == noff
+            arg, valid = {KEYSETS[case.get("keys", "plain")][i]: d for i, d in enumerate(ds)}, k - 1 == noff
         elif kind == "dict_int_keys":
             arg, valid = {7 * i + 1: d for i, d in enumerate(ds)}, k - 1 == noff
         elif kind == "generator":
@@ -281,7 +287,7 @@ def data_body_factory(ctx):
                 res = joker.iterative_rejection_sample(arg, smp, n_requested_samples=1, init_batch_size=2, in_memory=True)
         except Exception as e:
             exc = e
-        cell = "data:%s:%s" % (kind, "valid" if valid else "invalid")
+        cell = "data:%s:%s" % (kind if kind != "dict" else "dict[%s labels]" % case.get("keys", "plain"), "valid" if valid else "invalid")
         if valid and exc is not None:
             raise Violation("valid data argument (%s of %d sources, %d offsets) was rejected: %s: %s"
                             % (kind, k, noff, type(exc).__name__, str(exc)[:200]))
